@@ -492,6 +492,44 @@ def main(argv):
             })
             violations.append((path, " no-failing-input-found"))
 
+    # -------- a source-tie note (part of the source left the translated subset, so that part is tied by the correspondence
+    # only in this run): deepen the correspondence and the search with fresh generator rounds before accepting the run
+    drift_rounds_done = 0
+    if not violations and getattr(run, "tie_notes", None) and have_model:
+        rounds = getattr(mod, "DRIFT_ROUNDS", {"quick": 3, "thorough": 1})[tier]
+        for k in range(rounds):
+            r2 = rng.fork("drift-%d" % k)
+            l2, _ = mod.gen(r2, tier)
+            l2 = list(l2)
+            i2, ml2, m2, d2 = execute(run, l2)
+            drift_rounds_done += 1
+            f2 = [f for f in mod.oracle(l2, i2) if f.key not in known]
+            if f2:
+                f = f2[0]
+                ctx = [f.idx] if f.idx is not None else []
+                path = write_replay(run, "oracle", {
+                    "message": f.msg, "key": f.key, "expected": f.expected,
+                    "lines": [l2[i] for i in ctx], "impl": [i2[i] for i in ctx],
+                    "model": [model_reply_at(ml2, m2, i) for i in ctx],
+                    "found_by": "deepened search after a source-tie note (%s)" % "; ".join(run.tie_notes)[:400],
+                })
+                violations.append((path, ""))
+                break
+            if d2:
+                d = d2[:5]
+                path = write_replay(run, "unproved", {
+                    "message": "the property is no longer shown to hold: the source tie could not be re-established (%s) and the deepened "
+                               "correspondence between model and implementation broke on %d request line(s)" % ("; ".join(run.tie_notes)[:400], len(d2)),
+                    "lines": [l2[i] for i in d], "impl": [i2[i] for i in d],
+                    "model": [model_reply_at(ml2, m2, i) for i in d],
+                    "n_correspondence_diffs": len(d2),
+                })
+                violations.append((path, " no-failing-input-found"))
+                break
+        if not violations:
+            run.say("NOTE property=%s deepened correspondence after the source-tie note: %d extra generator round(s), no difference, no oracle failure"
+                    % (pid, drift_rounds_done))
+
     for key, f in known_hit.items():
         run.say("KNOWN-FINDING: property=%s key=%s %s" % (pid, key, known[key]))
 
@@ -546,6 +584,7 @@ def main(argv):
             "generator_coverage": cover,
             "proof_alarms": [{"name": n, "detail": d[:300]} for n, d in run.proof_alarms[:20]],
             "source_tie_notes": [n[:300] for n in getattr(run, "tie_notes", [])][:20],
+            "source_tie_deepening_rounds": drift_rounds_done,
             "exhaustive": bool(getattr(mod, "EXHAUSTIVE", {}).get(tier, False)),
         },
         "assumptions": getattr(mod, "ASSUMPTIONS", []),
